@@ -267,7 +267,7 @@ func (ex *Executor) binop(st *State, fr *frame, op token.Token, a, b Value, opT 
 			case token.AND:
 				return bitAnd(ta, tb)
 			case token.OR:
-				return App("bitor", SInt, ta, tb)
+				return bitOr(ta, tb)
 			case token.XOR:
 				return App("bitxor", SInt, ta, tb)
 			case token.SHL:
@@ -315,6 +315,11 @@ func (ex *Executor) binop(st *State, fr *frame, op token.Token, a, b Value, opT 
 // bitAnd: x & m for a literal mask m = 2^k (single bit) is encoded with
 // div/mod; other masks are uninterpreted.
 func bitAnd(a, b *Term) *Term {
+	if x, ok := a.IntVal(); ok {
+		if y, ok := b.IntVal(); ok && x >= 0 && y >= 0 {
+			return IntLit(x & y)
+		}
+	}
 	if m, ok := b.IntVal(); ok && m > 0 && m&(m-1) == 0 {
 		// ((a div m) mod 2) * m
 		return Mul(Builtin("mod", SInt, Builtin("div", SInt, a, IntLit(m)), IntLit(2)), IntLit(m))
@@ -323,6 +328,22 @@ func bitAnd(a, b *Term) *Term {
 		return bitAnd(b, a)
 	}
 	return App("bitand", SInt, a, b)
+}
+
+// bitOr: x | m = x + m - (x & m) for a single-bit literal mask m.
+func bitOr(a, b *Term) *Term {
+	if x, ok := a.IntVal(); ok {
+		if y, ok := b.IntVal(); ok && x >= 0 && y >= 0 {
+			return IntLit(x | y)
+		}
+	}
+	if m, ok := b.IntVal(); ok && m > 0 && m&(m-1) == 0 {
+		return Sub(Add(a, b), bitAnd(a, b))
+	}
+	if m, ok := a.IntVal(); ok && m > 0 && m&(m-1) == 0 {
+		return bitOr(b, a)
+	}
+	return App("bitor", SInt, a, b)
 }
 
 // Go's integer division truncates toward zero; SMT div floors for positive
